@@ -292,7 +292,7 @@ func (hasher *PathHasher) fileHash(h hash.Hash, filename string) error {
 	return err
 }
 
-// sizedFileHash is like fileHash but writes the size of the file before its content, so that
+// sizedFileHash is like fileHash but writes the executable bit and size of the file before its content, so that
 // the contents of consecutive files within a directory can't run into one another.
 func (hasher *PathHasher) sizedFileHash(h hash.Hash, filename string) error {
 	file, err := os.Open(filename)
@@ -304,8 +304,13 @@ func (hasher *PathHasher) sizedFileHash(h hash.Hash, filename string) error {
 	if err != nil {
 		return err
 	}
-	var size [8]byte
-	binary.BigEndian.PutUint64(size[:], uint64(info.Size()))
+	// Whether it's executable is part of what the file is too (and nothing else would notice
+	// if that was all that changed about a file somewhere inside an output directory).
+	var size [9]byte
+	if info.Mode().Perm()&0111 != 0 {
+		size[0] = 1
+	}
+	binary.BigEndian.PutUint64(size[1:], uint64(info.Size()))
 	h.Write(size[:])
 	_, err = io.Copy(h, file)
 	return err
